@@ -13,7 +13,7 @@ from vlib.core import rng, h
 PROPERTY = "C38"
 RULE = ("i8/u8: all 2^16 operand pairs for every operator in the live ConstantFolder().ops table (exhaustive); "
         "16/32/64-bit: cross product of boundary values plus random pairs; every int->int cast on boundary values; "
-        "chains (y op c1) op c2 for + and -; oracle = vlib.refinterp on the unfolded function; undefined operations "
+        "chains (y op1 c1) op2 c2 for every combination of + and -; oracle = vlib.refinterp on the unfolded function; undefined operations "
         "(zero divisor, shift count outside [0,width)) are outside the quantifier: counted, never judged; "
         "non-trivial = pair with both operands non-zero; distinct by construction (shards partition the space)")
 ASSUMPTIONS = ["vlib.refinterp implements IR integer semantics (wrap-around, truncating / and %, arithmetic >> on signed)"]
@@ -283,6 +283,7 @@ def run_chains(mon, r, n):
     for k in range(n):
         ty = T(r.choice(tys))
         op = r.choice("+-")
+        op2 = r.choice("+-")   # inner and outer operator vary independently: (y + c1) - c2 etc.
         if ty.is_integer:
             bv = boundary(ty, r, 20)
             c1, c2 = r.choice(bv), r.choice(bv)
@@ -307,7 +308,7 @@ def run_chains(mon, r, n):
             b.add_instruction(c)
             t = ir.Binop(y, op, a, "t", ty)
             b.add_instruction(t)
-            u = ir.Binop(t, op, c, "u", ty)
+            u = ir.Binop(t, op2, c, "u", ty)
             b.add_instruction(u)
             b.add_instruction(ir.Return(u))
             return m
@@ -329,14 +330,14 @@ def run_chains(mon, r, n):
         for y in ys:
             a, b = i0.run("f", [y]), i1.run("f", [y])
             mon["evals"] += 1
-            mon["ops"]["chain" + op] = mon["ops"].get("chain" + op, 0) + 1
+            mon["ops"]["chain" + op + op2] = mon["ops"].get("chain" + op + op2, 0) + 1
             if len(consts) > 2:
                 mon["folded"] += 1
                 mon["nontrivial"] += 1
             if a.status == "ok" and (b.status != "ok" or a.retval != b.retval):
                 if len(mon["viol"]) < 8:
                     mon["viol"].append({"summary": "%s: (y %s %r) %s %r with y=%r gives %r before and %r after folding" % (
-                        ty.name, op, c1, op, c2, y, a.retval, b.retval), "case": {"ty": ty.name, "c1": c1, "c2": c2, "op": op, "y": y}})
+                        ty.name, op, c1, op2, c2, y, a.retval, b.retval), "case": {"ty": ty.name, "c1": c1, "c2": c2, "op": op, "op2": op2, "y": y}})
                 break
 
 
